@@ -7,6 +7,9 @@ from riolib.core import Callee, MissingAnchor, span_line
 from riolib.prov import Prov, show, mentions, walk
 from riolib import types as T
 
+THOROUGH_CONFIGS = ['dot']
+
+
 MANIFEST = {
     "text": "Static wire-schema symmetry read off the serde-derived code of every type in the closure of Action and Request (14+ ADTs): both directions derived; keys written by Serialize = keys accepted by the generated field visitor; keys required by the visitor (missing_field on a non-Option field) are always written; conditionally written keys are defaulted on read; enum variant names agree; the untagged BodyFilter variants are distinguishable (no earlier variant's required keys are all written by a later one); no hash-ordered container in the closure (re-serialisation is stable); the four FFI (de)serialise entry points call serde_json on exactly Action / Request. Leaf value round-trips of serde_json / chrono / std are trusted.",
     "technique": "static analysis: writer/reader key tables extracted from derive-generated MIR and compared",
